@@ -192,6 +192,16 @@ def sv_quoted(rng, reader):
         words = [x for x in words if q not in x]
         content = (w() + " " + " ".join(words)).strip()
         cls = "quoted:long-with-line-start-hazard-words"
+    elif r < 0.13:
+        # characters that Python's str.split()/isspace() treat as white space
+        # but the dialects do not: they are ordinary string characters
+        pool = {"default": "\xa0\x85\x1c\x1d\x1e\x1f\u2028\u3000",
+                "ISIS": "\xa0", "PVL": "\xa0",
+                "ODL": "\x1c\x1d\x1e\x1f", "PDS3": "\x1c\x1d\x1e\x1f"}[reader]
+        c = rng.choice(pool)
+        content = rng.choice((f"{w()}{c}{w()}", f"{w()}{c}", f"{c}{w()}",
+                              f"1{c}000{c}km", f"{w()} {c} {w()}"))
+        cls = "quoted:python-space-that-is-not-pvl-space"
     elif r < 0.2:
         content, cls = "", "quoted:empty"
     elif r < 0.4:
